@@ -518,6 +518,15 @@ func (b *badPeer) run(p *e2e.Pair, kind string, seed int64) error {
 func (b *badPeer) runGarbage(p *e2e.Pair, kind string) error {
 	base, _ := baseOf(kind)
 	send := func(w io.Writer) {
+		if strings.HasPrefix(b.class, "dgrams:") {
+			n, err := sprayDatagrams(w, b.payload)
+			if err != nil {
+				b.setStep(fmt.Sprintf("garbage-write-ended-early after %d datagrams: %s", n, e2e.Clip(err.Error(), 80)))
+				return
+			}
+			b.setStep(fmt.Sprintf("garbage-sent (%d datagrams)", n))
+			return
+		}
 		if _, err := w.Write(b.payload); err != nil {
 			// the server may drop the connection on the first bytes while the rest is still being
 			// written: the peer has done what it will ever do
@@ -1121,6 +1130,19 @@ func buildCases(rec *vcommon.Rec, kind string) []*c15Case {
 	// the request line 0..4 is enumerated in every such scenario, everything else is drawn; thorough walks
 	// through separators x header shapes x line ends and through the non-textual classes as well)
 	for _, gpt := range gpts {
+		if gpt == ptGarbageRaw && base == "dns" {
+			// nine peers, so that every class of DNS datagram occurs; and once with a client that is already connected when
+			// the garbage arrives and goes on to use its session afterwards
+			add("bad-first", gpt, rep(gpt, maxWords+5), 2)
+			add("good-first", gpt, rep(gpt, maxWords+5), 1)
+			if rec.Thorough() {
+				for v := 1; v <= 12; v++ {
+					addV("bad-first", gpt, rep(gpt, maxWords+5), 1+v%3, v)
+					addV("good-first", gpt, rep(gpt, maxWords+5), 1, v)
+				}
+			}
+			continue
+		}
 		add("bad-first", gpt, rep(gpt, maxWords+4), 2)
 		if rec.Thorough() {
 			for v := 1; v <= 12; v++ {
